@@ -468,6 +468,159 @@ theorem wf_str_map_faithful (es : List (Key × Value)) (ck ok : List Key) (d : L
   have := toPy_dict_faithful es d (str_keys_distinct es hw.2 hs) hes
   exact ⟨this.1, this.2.1, this.2.2.1⟩
 
+/-! ## 7. The whole value at once -/
+
+mutual
+/-- The native object a value *should* arrive as: the same tree with every constructor replaced
+by its Python counterpart, every mapping entry kept. (No `set_item` here: this is the
+specification, `toPy` is the code.) -/
+def pyOf : Value → PyObj
+  | .null => .none
+  | .bool b => .bool b
+  | .num (.int i) => .int i
+  | .num (.float y _) => .float y
+  | .str s => .str s
+  | .lit s => .str s
+  | .seq l => .list (pyOfL l)
+  | .vl l => .list (pyOfL l)
+  | .map es _ _ => .dict (pyOfEs es)
+def pyOfL : List Value → List PyObj
+  | [] => []
+  | v :: vs => pyOf v :: pyOfL vs
+def pyOfEs : List (Key × Value) → List (PyObj × PyObj)
+  | [] => []
+  | (k, v) :: es => (k.toPy, pyOf v) :: pyOfEs es
+end
+
+mutual
+/-- In every mapping anywhere inside the value the keys are pairwise different in Python. -/
+def DistinctKeys : Value → Prop
+  | .map es _ _ => PyDistinct es ∧ DistinctKeysEs es
+  | .seq l => DistinctKeysL l
+  | .vl l => DistinctKeysL l
+  | _ => True
+def DistinctKeysL : List Value → Prop
+  | [] => True
+  | v :: vs => DistinctKeys v ∧ DistinctKeysL vs
+def DistinctKeysEs : List (Key × Value) → Prop
+  | [] => True
+  | (_, v) :: es => DistinctKeys v ∧ DistinctKeysEs es
+end
+
+mutual
+/-- Every key of every mapping anywhere inside the value is a `String` key. -/
+def StrKeyed : Value → Prop
+  | .map es _ _ => StrKeyedEs es
+  | .seq l => StrKeyedL l
+  | .vl l => StrKeyedL l
+  | _ => True
+def StrKeyedL : List Value → Prop
+  | [] => True
+  | v :: vs => StrKeyed v ∧ StrKeyedL vs
+def StrKeyedEs : List (Key × Value) → Prop
+  | [] => True
+  | (k, v) :: es => (∃ s, k = .str s) ∧ StrKeyed v ∧ StrKeyedEs es
+end
+
+theorem pyOfL_length (l : List Value) : (pyOfL l).length = l.length := by
+  induction l with
+  | nil => rfl
+  | cons v vs ih => simp [pyOfL, ih]
+
+theorem pyOfEs_keys (es : List (Key × Value)) : (pyOfEs es).map Prod.fst = es.map (fun e => e.1.toPy) := by
+  induction es with
+  | nil => rfl
+  | cons e rest ih => obtain ⟨k, v⟩ := e; simp [pyOfEs, ih]
+
+theorem strKeyedEs_mem (es : List (Key × Value)) (h : StrKeyedEs es) : ∀ e ∈ es, ∃ s, e.1 = .str s := by
+  induction es with
+  | nil => intro e he; simp at he
+  | cons e rest ih =>
+    obtain ⟨k, v⟩ := e
+    simp only [StrKeyedEs] at h
+    intro e he
+    rcases List.mem_cons.1 he with he | he
+    · subst he; exact h.1
+    · exact ih h.2.2 e he
+
+mutual
+/-- **Whole-value faithfulness.** Plain data in which no mapping has two keys that Python
+identifies arrives as exactly the specified native object `pyOf v`: dicts with all entries in
+mapping order, lists in order, scalars as in `toPy_scalars`, at every depth. -/
+theorem toPy_eq_pyOf : ∀ (v : Value), Closed v → DistinctKeys v → toPy v = .ok (pyOf v)
+  | .null, _, _ => rfl
+  | .bool _, _, _ => rfl
+  | .num (.int _), _, _ => rfl
+  | .num (.float _ _), _, _ => rfl
+  | .lit _, _, _ => rfl
+  | .str _, h, _ => by simp [Closed] at h
+  | .vl _, h, _ => by simp [Closed] at h
+  | .seq l, h, hd => by
+    simp only [Closed] at h
+    simp only [DistinctKeys] at hd
+    simp [toPy, pyOf, (toPyL_iff _ _).2 (listConv_pyOfL l h hd)]
+  | .map es _ _, h, hd => by
+    simp only [Closed] at h
+    simp only [DistinctKeys] at hd
+    have := toPyEs_acc_of_conv es [] _ hd.1 (by intro e _ a ha; simp at ha) (entriesConv_pyOfEs es h hd.2)
+    simp only [List.nil_append] at this
+    simp [toPy, pyOf, this]
+theorem listConv_pyOfL : ∀ (l : List Value), ClosedL l → DistinctKeysL l → ListConv l (pyOfL l)
+  | [], _, _ => .nil
+  | v :: vs, h, hd => by
+    simp only [ClosedL] at h
+    simp only [DistinctKeysL] at hd
+    exact .cons (toPy_eq_pyOf v h.1 hd.1) (listConv_pyOfL vs h.2 hd.2)
+theorem entriesConv_pyOfEs : ∀ (es : List (Key × Value)), ClosedEs es → DistinctKeysEs es →
+    EntriesConv es (pyOfEs es)
+  | [], _, _ => .nil
+  | (k, v) :: rest, h, hd => by
+    simp only [ClosedEs] at h
+    simp only [DistinctKeysEs] at hd
+    exact .cons (toPy_eq_pyOf v h.1 hd.1) (entriesConv_pyOfEs rest h.2 hd.2)
+end
+
+mutual
+/-- Well-formed values (keys unique in every mapping) with string keys only have Python-distinct
+keys everywhere. -/
+theorem distinctKeys_of_strKeyed : ∀ (v : Value), WF v → StrKeyed v → DistinctKeys v
+  | .null, _, _ => by simp [DistinctKeys]
+  | .bool _, _, _ => by simp [DistinctKeys]
+  | .num _, _, _ => by simp [DistinctKeys]
+  | .lit _, _, _ => by simp [DistinctKeys]
+  | .str _, _, _ => by simp [DistinctKeys]
+  | .vl l, h, hs => by
+    simp only [WF] at h; simp only [StrKeyed] at hs; simp only [DistinctKeys]
+    exact distinctKeysL_of_strKeyed l h hs
+  | .seq l, h, hs => by
+    simp only [WF] at h; simp only [StrKeyed] at hs; simp only [DistinctKeys]
+    exact distinctKeysL_of_strKeyed l h hs
+  | .map es _ _, h, hs => by
+    simp only [WF] at h; simp only [StrKeyed] at hs; simp only [DistinctKeys]
+    exact ⟨str_keys_distinct es h.2 (strKeyedEs_mem es hs), distinctKeysEs_of_strKeyed es h.1 hs⟩
+theorem distinctKeysL_of_strKeyed : ∀ (l : List Value), WFL l → StrKeyedL l → DistinctKeysL l
+  | [], _, _ => by simp [DistinctKeysL]
+  | v :: vs, h, hs => by
+    simp only [WFL] at h; simp only [StrKeyedL] at hs; simp only [DistinctKeysL]
+    exact ⟨distinctKeys_of_strKeyed v h.1 hs.1, distinctKeysL_of_strKeyed vs h.2 hs.2⟩
+theorem distinctKeysEs_of_strKeyed : ∀ (es : List (Key × Value)), WFEs es → StrKeyedEs es → DistinctKeysEs es
+  | [], _, _ => by simp [DistinctKeysEs]
+  | (k, v) :: rest, h, hs => by
+    simp only [WFEs] at h; simp only [StrKeyedEs] at hs; simp only [DistinctKeysEs]
+    exact ⟨distinctKeys_of_strKeyed v h.2.1 hs.2.1, distinctKeysEs_of_strKeyed rest h.2.2 hs.2.2⟩
+end
+
+/-- **End to end.** Rendered parameters whose mapping keys are all strings (the ordinary case)
+arrive through the Python API as exactly `pyOf` of the rendered value: no panic, every mapping
+a dict with all its entries in order, every list a list in order, every scalar the native
+scalar. (`WF` of the input is the hypothesis of C07; the string-key condition is on the
+output, where C07 also gives `WF`.) -/
+theorem render_toPy_faithful {n : Nat} {m out : Mapping} (hm : WF m.toValue)
+    (h : renderParamsF n m = .ok out) (hs : StrKeyed out.toValue) :
+    toPy out.toValue = .ok (pyOf out.toValue) := by
+  obtain ⟨hc, hw⟩ := C07.render_closed hm h
+  exact toPy_eq_pyOf _ hc (distinctKeys_of_strKeyed _ hw hs)
+
 /-! ### Non-vacuity -/
 
 example : toPy (.map [(.str "a".toList, .seq [.num (.int 100000000000000000000), .bool true, .null]),
@@ -486,6 +639,15 @@ example : Closed (.map [(.str "a".toList, .seq [.lit "x".toList])] [] []) := by 
 example : (Key.toPy (.bool false)).keyEq (Key.toPy (.num (.int 0))) = true := by decide
 
 example : (Key.toPy (.str "1".toList)).keyEq (Key.toPy (.num (.int 1))) = false := by decide
+
+example : DistinctKeys (.map [(.str "a".toList, .map [(.num (.int 1), .null), (.bool false, .null)] [] [])] [] []) := by
+  simp [DistinctKeys, DistinctKeysEs, PyDistinct, Key.toPy, PyObj.keyEq, PyObj.keyNum]
+
+example : ¬ DistinctKeys (.seq [.map [(.num (.int 1), .null), (.bool true, .null)] [] []]) := by
+  simp [DistinctKeys, DistinctKeysL, DistinctKeysEs, PyDistinct, Key.toPy, PyObj.keyEq, PyObj.keyNum]
+
+example : StrKeyed (.map [(.str "a".toList, .seq [.map [(.str "b".toList, .null)] [] []])] [] []) := by
+  simp [StrKeyed, StrKeyedEs, StrKeyedL]
 
 end C19
 end Reclass
